@@ -23,7 +23,8 @@ Definition dirapp_eqb (a b : dirapp) : bool :=
   String.eqb (da_name a) (da_name b) && list_eqb applarg_eqb (da_args a) (da_args b).
 Definition argdef_eqb (descs : bool) (a b : argdef) : bool :=
   String.eqb (ad_name a) (ad_name b) && (negb descs || String.eqb (ad_desc a) (ad_desc b)) &&
-  opt_eqb ty_eqb (ad_type a) (ad_type b) && opt_eqb gval_eqb (ad_default a) (ad_default b).
+  opt_eqb ty_eqb (ad_type a) (ad_type b) && opt_eqb gval_eqb (ad_default a) (ad_default b) &&
+  list_eqb dirapp_eqb (ad_dirs a) (ad_dirs b).
 Definition fielddef_eqb (descs : bool) (a b : fielddef) : bool :=
   String.eqb (fd_name a) (fd_name b) && (negb descs || String.eqb (fd_desc a) (fd_desc b)) &&
   opt_eqb ty_eqb (fd_type a) (fd_type b) && list_eqb (argdef_eqb descs) (fd_args a) (fd_args b) &&
